@@ -197,9 +197,8 @@ func FinishSpeculativeLength(b []byte, pos int) []byte {
 		if cap(b) >= pos+msiz+mlen {
 			b = b[:pos+msiz+mlen]
 		} else {
-			newSlice := make([]byte, pos+msiz+mlen)
-			copy(newSlice, b)
-			b = newSlice
+			// NOTICE: append grows the buffer geometrically, an exact-size copy per nested message is quadratic
+			b = append(b, "\x00\x00\x00\x00\x00\x00\x00\x00\x00\x00"[:msiz-speculativeLength]...)
 		}
 		copy(b[pos+msiz:], b[pos+speculativeLength:])
 	}
